@@ -1,15 +1,32 @@
-(* C53 -- lemmas, part B: Gauss rules, tangent consistency, patch test. *)
+(* C53 -- lemmas, part B (real numbers only): isoparametric geometry, Gauss rules (the exact ones, and the constants
+   read from the compiled code at this run: C53_gen.v), tangent consistency, patch test of one element. *)
 From Coq Require Import ZArith QArith Reals List Lra Lia.
-From Coquelicot Require Import Coquelicot.
-From C53 Require Import C53Spec C53Model C53ProofsA.
+From C53 Require Import C53SpecFE C53Model C53_gen.
 Import ListNotations.
 Local Open Scope R_scope.
+
+Ltac unf := cbv [lin_elem quad_elem cub_elem sf dsf nodes lin_sf lin_dsf lin_nodes quad_sf quad_dsf quad_nodes
+  cub_sf cub_dsf cub_nodes third cste cste2 c q neg RNum nadd nsub nmul ndiv nZ
+  map nth length fold_right sumR interp dinterp dot sum zipw at_ elem_radii kronecker Nat.eqb
+  partition_of_unity fst snd quadR quad app].
+
+(* isoparametric map of an element with equally spaced nodes: r(x) = r0 + dr (x+1)/2, J = dr/2 *)
+Lemma lin_geom r0 dr x : interp RNum (lin_elem RNum) (elem_radii RNum (lin_elem RNum) r0 dr) x = r0 + dr * (x + 1) / 2
+  /\ dinterp RNum (lin_elem RNum) (elem_radii RNum (lin_elem RNum) r0 dr) x = dr / 2.
+Proof. unf. split; field. Qed.
+Lemma quad_geom r0 dr x : interp RNum (quad_elem RNum) (elem_radii RNum (quad_elem RNum) r0 dr) x = r0 + dr * (x + 1) / 2
+  /\ dinterp RNum (quad_elem RNum) (elem_radii RNum (quad_elem RNum) r0 dr) x = dr / 2.
+Proof. unf. split; field. Qed.
+Lemma cub_geom r0 dr x : interp RNum (cub_elem RNum) (elem_radii RNum (cub_elem RNum) r0 dr) x = r0 + dr * (x + 1) / 2
+  /\ dinterp RNum (cub_elem RNum) (elem_radii RNum (cub_elem RNum) r0 dr) x = dr / 2.
+Proof. unf. split; field. Qed.
+
 
 
 Ltac unfq := cbv [lin_elem quad_elem cub_elem sf dsf nodes lin_sf lin_dsf lin_nodes quad_sf quad_dsf quad_nodes
   cub_sf cub_dsf cub_nodes third cste cste2 c q neg RNum nadd nsub nmul ndiv nZ
   map nth length fold_right sumR interp dinterp dot sum zipw at_ elem_radii kronecker Nat.eqb
-  partition_of_unity fst snd quadR quad app lin_gps_R quad_gps_R cub_gps dec15 moment Nat.even Nat.add INR pow].
+  partition_of_unity fst snd quadR quad app lin_gps_R quad_gps_R gen_lin_gps gen_quad_gps gen_cub_gps moment Nat.even Nat.add INR pow].
 Ltac split_le k n := lazymatch n with O => (destruct k as [|k]; [|exfalso; lia]) | S ?m => destruct k as [|k]; [| split_le k m] end.
 
 Lemma lin_gauss : exact_to_degree lin_gps_R 3.
@@ -37,14 +54,19 @@ Proof.
   rewrite H4, H2 in H. lra.
 Qed.
 
-Lemma cub_gauss : exact_to_degree_within (cub_gps RNum) 7 (1 / 10 ^ 14).
+(* the rules the compiled code uses (C53_gen.v, regenerated at every run) *)
+Lemma gen_lin_gauss : exact_to_degree_within (gen_lin_gps RNum) 3 (1 / 10 ^ 15).
+Proof. intros k Hk. split_le k 3%nat; unfq; apply Rabs_le; split; lra. Qed.
+Lemma gen_quad_gauss : exact_to_degree_within (gen_quad_gps RNum) 5 (1 / 10 ^ 15).
+Proof. intros k Hk. split_le k 5%nat; unfq; apply Rabs_le; split; lra. Qed.
+Lemma cub_gauss : exact_to_degree_within (gen_cub_gps RNum) 7 (1 / 10 ^ 14).
 Proof.
   intros k Hk. split_le k 7%nat; unfq; apply Rabs_le; split; lra.
 Qed.
 Ltac list_eq := repeat (lazymatch goal with |- cons _ _ = cons _ _ => apply f_equal2 | |- nil = nil => reflexivity end).
 Ltac unfp := cbv [lin_elem quad_elem cub_elem sf dsf nodes lin_sf lin_dsf quad_sf quad_dsf
   cub_sf cub_dsf cub_nodes quad_nodes lin_nodes elem_radii third cste cste2 c q neg RNum nadd nsub nmul ndiv nZ
-  map length fold_right dot sum zipw at_ fst snd app vadd zeros repeat quad nth cub_gps dec15].
+  map length fold_right dot sum zipw at_ fst snd app vadd zeros repeat quad nth gen_lin_gps gen_quad_gps gen_cub_gps].
 
 
 Ltac unfg := cbv [sf dsf nodes c q neg RNum nadd nsub nmul ndiv nZ
@@ -178,17 +200,17 @@ End QuadPatch.
 
 (* the decimal 4-point rule of the source: the inner forces under a uniform stress are
    2 pi s (r0 a_j + dr b_j) with a_j, b_j within 1e-14 of the exact values (-1,0,0,1), (0,0,0,1) *)
-Definition cub_alpha (j : nat) := quad RNum (cub_gps RNum) (nth j (cub_dsf RNum) (fun _ => 0)).
-Definition cub_beta (j : nat) := quad RNum (cub_gps RNum) (fun x => (x + 1) / 2 * nth j (cub_dsf RNum) (fun _ => 0) x + nth j (cub_sf RNum) (fun _ => 0) x / 2).
-Definition cub_gamma := quad RNum (cub_gps RNum) (fun _ => 1).
-Definition cub_delta := quad RNum (cub_gps RNum) (fun x => x).
+Definition cub_alpha (j : nat) := quad RNum (gen_cub_gps RNum) (nth j (cub_dsf RNum) (fun _ => 0)).
+Definition cub_beta (j : nat) := quad RNum (gen_cub_gps RNum) (fun x => (x + 1) / 2 * nth j (cub_dsf RNum) (fun _ => 0) x + nth j (cub_sf RNum) (fun _ => 0) x / 2).
+Definition cub_gamma := quad RNum (gen_cub_gps RNum) (fun _ => 1).
+Definition cub_delta := quad RNum (gen_cub_gps RNum) (fun x => x).
 Lemma cub_patch_decimal_form r0 dr s z twopi : dr <> 0 ->
-    elem_forces_of_stress RNum (cub_elem RNum) false (cub_gps RNum) (elem_radii RNum (cub_elem RNum) r0 dr) twopi (s, z, s)
+    elem_forces_of_stress RNum (cub_elem RNum) false (gen_cub_gps RNum) (elem_radii RNum (cub_elem RNum) r0 dr) twopi (s, z, s)
     = [twopi * s * (r0 * cub_alpha 0 + dr * cub_beta 0); twopi * s * (r0 * cub_alpha 1 + dr * cub_beta 1);
        twopi * s * (r0 * cub_alpha 2 + dr * cub_beta 2); twopi * s * (r0 * cub_alpha 3 + dr * cub_beta 3);
        twopi * z * (dr / 2) * (r0 * cub_gamma + dr / 2 * (cub_gamma + cub_delta))].
 Proof.
-  intros Hd. unfold elem_forces_of_stress, gp_forces_of_stress. cbv [cub_gps fold_right fst snd].
+  intros Hd. unfold elem_forces_of_stress, gp_forces_of_stress. cbv [gen_cub_gps fold_right fst snd].
   rewrite !(proj2 (cub_geom r0 dr _)), !(proj1 (cub_geom r0 dr _)).
   unfold cub_alpha, cub_beta, cub_gamma, cub_delta. unfp. list_eq; field; assumption.
 Qed.
@@ -204,11 +226,11 @@ Qed.
    PipeCubicElement::updateStiffnessMatrixAndInnerForces of the pinned tree does) fails the patch test *)
 Lemma cub_at_rg_fails_patch :
   exists r0 dr s, dr <> 0 /\
-    Rabs (nth 1 (elem_forces_of_stress RNum (cub_elem RNum) true (cub_gps RNum) (elem_radii RNum (cub_elem RNum) r0 dr) 1 (s, 0, s)) 0
+    Rabs (nth 1 (elem_forces_of_stress RNum (cub_elem RNum) true (gen_cub_gps RNum) (elem_radii RNum (cub_elem RNum) r0 dr) 1 (s, 0, s)) 0
           - 0) >= 1 / 2.
 Proof.
   exists 1, 1, 1. split; [lra|].
-  unfold elem_forces_of_stress, gp_forces_of_stress. cbv [cub_gps fold_right fst snd].
+  unfold elem_forces_of_stress, gp_forces_of_stress. cbv [gen_cub_gps fold_right fst snd].
   rewrite !(proj2 (cub_geom 1 1 _)), !(proj1 (cub_geom 1 1 _)).
   unfp. cbv [List.nth]. apply Rle_ge. match goal with |- _ <= Rabs ?a => apply Rle_trans with a; [|apply Rle_abs] end. lra.
 Qed.
